@@ -144,7 +144,9 @@ public:
         for (std::size_t i = 0; i != size; ++i)
         {
             RandomNumberEngine rne;
-            in >> rne;
+            // skip the separating newline explicitly; the stream operators of some generators
+            // (e.g. `std::minstd_rand` in libstdc++) do not skip leading whitespace themselves
+            in >> std::ws >> rne;
             generators_.push_back(rne);
         }
     }
